@@ -359,39 +359,42 @@ def rule_columns(ctx):
     if not fns:
         res.missing_anchor("<DatasetIter as Iterator>::next")
     for fn in fns:
-        c = fn["crate"]
-        r = Render(c)
         key = fn_key(fn)
+        tr = Tracer(fn).run()
         found = 0
-        for n in walk(fn["body"]):
-            if n.get("k") != "If" or not n.get("else"):
+        gk = lambda e: tuple((g[0], g[1]) for g in e.guards)
+        cols = [e for e in tr.events if e.kind == "call" and e.name == "collapse_axis" and len(e.args) == 2]
+        # name look-ups: `names[i]`, `names.get(i)`
+        looks = []
+        for e in tr.events:
+            if e.kind == "index" and "_names" in k(e.base):
+                looks.append((e, k(e.base), e.idx))
+            elif e.kind == "call" and e.name in ("get", "get_unchecked", "nth") and e.recv is not None and "_names" in k(e.recv) and e.args:
+                looks.append((e, k(e.recv), e.args[0]))
+        for col in cols:
+            cont = "records" if "records" in k(col.recv) else ("targets" if "targets" in k(col.recv) else None)
+            if cont is None:
                 continue
-            for branch in (n["then"], n["else"]):
-                col = [x for x in walk(branch) if x.get("k") == "MethodCall" and x["name"] == "collapse_axis"]
-                if len(col) != 1:
-                    continue
-                cont = peel_refs(col[0]["recv"]).get("name")
-                idx = r.e(col[0]["args"][1])
-                ax = r.e(col[0]["args"][0])
-                want = {"records": "feature_names", "targets": "target_names"}.get(cont)
-                names_idx = [(x, r.e(x["e"]), r.e(x["i"])) for x in walk(branch) if x.get("k") == "Index" and "names" in r.e(x["e"])]
-                found += 1
-                inst = "%s : %s.collapse_axis(%s, %s)" % (key, cont, ax, idx)
-                res.instance(inst)
-                bad = None
-                if "Axis(1)" not in ax:
-                    bad = "the collapsed axis is %s, not the column axis" % ax
-                for x, base, i in names_idx:
-                    if want and want not in base:
-                        bad = "a name of `%s` is attached while `%s` is collapsed" % (base.split(".")[-1], cont)
-                    elif i != idx:
-                        bad = "column %s is kept but the name at index %s is attached" % (idx, i)
-                if not names_idx:
-                    bad = bad or None
-                if bad:
-                    res.violate("%s : %s-names" % (key, cont), bad, fn_loc(fn, col[0]["ln"]))
-                else:
-                    res.ok()
+            found += 1
+            ax = axis_of(col.args[0])
+            idx = col.args[1]
+            want = {"records": "feature_names", "targets": "target_names"}[cont]
+            inst = "%s : %s.collapse_axis(Axis(%s), %s)" % (key, cont, ax, k(idx)[:40])
+            res.instance(inst)
+            bad = None
+            if ax != 1:
+                bad = "the collapsed axis is %s, not the column axis" % ax
+            mine = [l for l in looks if gk(l[0])[:len(gk(col))] == gk(col)]
+            for e, base, i in mine:
+                if want not in base:
+                    bad = "a name of `%s` is looked up while `%s` is collapsed" % ("feature_names" if "feature_names" in base else "target_names", cont)
+                elif k(i) != k(idx):
+                    bad = "column `%s` is kept but the name at index `%s` is attached" % (k(idx)[:50], k(i)[:50])
+            if bad:
+                res.violate("%s : %s-names" % (key, cont), bad, fn_loc(fn, col.node["ln"]))
+            else:
+                res.ok()
+                res.sample({"site": inst, "name_lookups": [k(i)[:40] for _, _, i in mine]})
         if found < 2:
             res.missing_anchor("the two collapse_axis branches of DatasetIter::next (found %d)" % found)
     return res.finish(2)
@@ -436,5 +439,131 @@ def rule_layout(ctx):
     return res.finish(2)
 
 
+def _fields(t):
+    """{name: value} of a `struct:` term"""
+    t = as_term(t)
+    if t is None or not t.op.startswith("struct:"):
+        return None
+    return dict((a.op[1:], a.args[0]) for a in t.args if isinstance(a, Term) and a.op.startswith("=") and a.args)
+
+
+def _extent_kind(v):
+    """'rows' / 'cols' when v is exactly one extent of the dataset (coefficient 1, no offset), else None"""
+    pv = as_poly(v)
+    if pv is None:
+        return None
+    atoms = pv.atoms()
+    if len(atoms) != 1 or pv.t.get((), 0) != 0 or list(pv.t.values()) != [1]:
+        return None
+    a = list(atoms)[0]
+    if "call:nsamples(" in a or "call:nrows(" in a:
+        return "rows"
+    if "call:nfeatures(" in a or "call:ncols(" in a:
+        return "cols"
+    return None
+
+
+def index_domain(idx):
+    """(kind, extent value, description) of an index vector term: a permutation of, or draws from, the half-open range 0..E"""
+    t = as_term(idx)
+    how = None
+    if t is not None and t.op == "mut:shuffle" and t.args:
+        how = "permutation"
+        t = as_term(t.args[0])
+    if t is None or not t.is_call("collect") or not t.args:
+        return None, None, "index vector is not collected from a range"
+    src = as_term(t.args[0])
+    if src is not None and src.is_call("map") and len(src.args) == 2 and how is None:
+        clo = as_term(src.args[1])
+        cnt = _fields(src.args[0])
+        if clo is None or not clo.op.startswith("closure#") or not clo.args or cnt is None:
+            return None, None, "unrecognised index generator"
+        g = as_term(clo.args[0])
+        if g is None or not g.is_call("gen_range") or len(g.args) != 2:
+            return None, None, "index generator is not rng.gen_range(range)"
+        rng_t = as_term(g.args[1])
+        if rng_t is None or rng_t.op != "struct:std::ops::Range":
+            return None, None, "gen_range is not given a half-open `a..b` range (%s)" % (rng_t.op if rng_t is not None else "?")
+        f = _fields(rng_t)
+        if k(f.get("start")) != "0":
+            return None, None, "draws start at %s, not at 0" % k(f.get("start"))
+        return "draws", f.get("end"), "draws from 0..%s" % k(f.get("end"))
+    if src is not None and src.op == "struct:std::ops::Range":
+        f = _fields(src)
+        if k(f.get("start")) != "0":
+            return None, None, "the index range starts at %s, not at 0" % k(f.get("start"))
+        return how or "identity", f.get("end"), "%s of 0..%s" % (how or "identity", k(f.get("end")))
+    return None, None, "index source `%s` is not a half-open range from 0" % (src.op if src is not None else "?")
+
+
+def rule_domain(ctx):
+    """'shuffle returns a permutation of all samples', 'bootstrap draws only existing samples and features', 'a ratio split
+    gives the first ceil(ratio*n) samples (the product taken in single precision)': the index vectors handed to select() and
+    the split point are read off the symbolic values."""
+    res = RuleResult("R-C02-domain", "every index vector handed to select(Axis(a), ..) is a permutation of / draws from exactly 0..extent(a); the ratio split point is ceil(nsamples as f32 * ratio)")
+    F = ctx.facts()
+    fns = [f for f in F.all_fns() if f["d"]["krate"] == "linfa" and fn_file(f).startswith("src/dataset/") and (f["d"].get("self_adt") or "").endswith("DatasetBase")]
+    n_sel = 0
+    for fn in fns:
+        if not any(x.get("k") == "MethodCall" and x["name"] == "select" for x in walk(fn["body"])):
+            continue
+        key = fn_key(fn)
+        tr = Tracer(fn).run()
+        i = 0
+        for e in tr.events:
+            if e.kind != "call" or e.name != "select" or len(e.args) != 2:
+                continue
+            i += 1
+            n_sel += 1
+            ax = axis_of(e.args[0])
+            inst = "%s : select #%d along axis %s" % (key, i, ax)
+            res.instance(inst)
+            kind, ext, desc = index_domain(e.args[1])
+            want = {0: "rows", 1: "cols"}.get(ax)
+            got = _extent_kind(ext) if ext is not None else None
+            if kind is None:
+                res.violate("%s : index-source:#%d" % (key, i), "select #%d along axis %s: %s" % (i, ax, desc), fn_loc(fn, e.node["ln"]))
+            elif got != want or want is None:
+                res.violate("%s : index-domain:#%d" % (key, i), "select #%d along axis %s takes %s; the axis has extent %s, so an existing %s can be unreachable or a non-existing one be drawn" % (i, ax, desc, {"rows": "nsamples", "cols": "nfeatures"}.get(want, "?"), "sample" if want == "rows" else "feature"), fn_loc(fn, e.node["ln"]))
+            elif fn["d"]["name"] == "shuffle" and kind != "permutation":
+                res.violate("%s : not-a-permutation:#%d" % (key, i), "shuffle selects with %s, which is not a shuffled copy of all row indices" % desc, fn_loc(fn, e.node["ln"]))
+            else:
+                res.ok()
+                res.sample({"site": inst, "indices": desc})
+    if n_sel < 8:
+        res.missing_anchor("select() sites of shuffle / bootstrap* (expected 8, found %d)" % n_sel)
+    # ratio split point
+    for fn in [f for f in fns if f["d"]["name"] == "split_with_ratio"]:
+        key = fn_key(fn) + ("#owned" if any(x.get("k") == "MethodCall" and x["name"] == "split_off" for x in walk(fn["body"])) else "#view")
+        c = fn["crate"]
+        tr = Tracer(fn).run()
+        res.instance("%s : split point" % key)
+        rounders = [e for e in tr.events if e.kind == "call" and e.name in ("ceil", "floor", "round", "trunc") and e.method]
+        cuts = [e for e in tr.events if e.kind == "call" and e.name in ("split_at", "split_off")]
+        if not rounders or not cuts:
+            res.violate("%s : split-point-form" % key, "expected a rounding of nsamples*ratio feeding the cuts (found %d roundings, %d cuts)" % (len(rounders), len(cuts)), fn_loc(fn))
+            continue
+        bad = None
+        for e in rounders:
+            prod = as_poly(e.recv)
+            okprod = prod is not None and len(prod.t) == 1 and list(prod.t.values()) == [1] and sorted(len(m) for m in prod.t) == [2] and any("call:nsamples(param:self)" == a for a in prod.atoms()) and any(a == "param:ratio" for a in prod.atoms())
+            rty = c.ty(e.node["recv"].get("t")) or ""
+            if e.name != "ceil":
+                bad = ("split-point-rounding", "the split point is `%s(nsamples*ratio)`; the documented split gives the first ceil(ratio*n) samples" % e.name, e.node["ln"])
+            elif not okprod:
+                bad = ("split-point-product", "the rounded quantity is `%s`, not nsamples*ratio" % k(e.recv)[:80], e.node["ln"])
+            elif rty != "f32":
+                bad = ("split-point-precision", "the product is taken in %s; the documented split takes it in single precision (ceil can differ by one row)" % rty, e.node["ln"])
+        vals = set(k(e.val) for e in rounders)
+        if bad is None and not all(any(v in k(x.args[-1]) for v in vals) for x in cuts):
+            bad = ("split-point-unused", "a cut does not use the rounded split point", cuts[0].node["ln"])
+        if bad:
+            res.violate("%s : %s" % (key, bad[0]), bad[1], fn_loc(fn, bad[2]))
+        else:
+            res.ok()
+            res.sample({"fn": key, "split_point": "ceil(nsamples as f32 * ratio)"})
+    return res.finish(10)
+
+
 def rules(tier):
-    return [rule_align, rule_filter, rule_columns, rule_layout]
+    return [rule_align, rule_filter, rule_columns, rule_layout, rule_domain]
